@@ -404,8 +404,13 @@ class ClientWorldObjectManager:
             # Parent ID changed, but we're in the same region
             new_region_state.handle_object_reparented(obj, old_parent_id=old_parent_id)
 
-        if actually_updated_props and new_region_state is not None:
-            self._run_object_update_hooks(obj, actually_updated_props, update_type, msg)
+        if new_region_state is not None:
+            if actually_updated_props:
+                self._run_object_update_hooks(obj, actually_updated_props, update_type, msg)
+            else:
+                # Nothing changed, so there's nothing to tell the hooks about, but whoever
+                # requested this object still got their answer.
+                new_region_state.resolve_futures(obj, update_type)
 
     def _track_new_object(self, region: RegionObjectsState, obj: Object, msg: Message):
         region.track_object(obj)
